@@ -203,6 +203,16 @@ def check_error_discipline(ctx, prefix):
                            for c in sup)
     ctx.check(ok, f"{prefix}.CTOR-WIRING", ini.site, "reader is constructed with validate_mode=True and the limit",
               "reader constructor is not called with validate_mode=True / limit_level=limit_level")
+    # the level headers are always parsed: taste() runs the missing-file scan on every configuration and every
+    # validator method reads self.cells, which the reader assigns only when header_only is false
+    ho = [k for c in sup for k in c.keywords if k.arg == "header_only"]
+    bad_ho = [k for k in ho if not (isinstance(k.value, ast.Constant) and k.value.value is False)]
+    ctx.check(not bad_ho, f"{prefix}.CTOR-WIRING", ini.site,
+              "the reader is never built header-only (self.cells is defined for every option combination)",
+              f"the reader is built with header_only={norm(bad_ho[0].value) if bad_ho else ''}: when that is true "
+              f"PlotfileCooker never assigns self.cells, but taste() always runs taste_plotfile_structure(), which "
+              f"reads self.cells — that option combination reports every well-formed plotfile bad", key="header_only",
+              where=loc(ini, bad_ho[0].value) if bad_ho else None, semantic=True)
     bo = prog.func(TT, "Taster.__bool__", prefix)
     rets = [n for n in walk_no_nested(bo.node) if isinstance(n, ast.Return)]
     ctx.check(len(rets) == 1 and norm(rets[0].value) == "self.isgood", f"{prefix}.BOOL", bo.site,
